@@ -11,14 +11,16 @@ one() {
   p=$1
   for d in seeded/$p-m*; do
     [ -f $d/patch.diff ] || continue
-    out=$(VERIF_SKIP_MODEL=1 VERIF_CORES=${VERIF_CORES:-4} tools/mutcheck.sh $d/patch.diff $tier $p 2>&1)
-    rc=$(echo "$out" | sed -n 's/^== .*: exit \([0-9]*\)$/\1/p' | head -1)
+    # a change can break a second property too: seeded/<id>/checks lists the properties whose checks are run (default: its own)
+    props=$p; [ -f $d/checks ] && props=$(cat $d/checks)
+    out=$(VERIF_SKIP_MODEL=1 VERIF_CORES=${VERIF_CORES:-4} tools/mutcheck.sh $d/patch.diff $tier $props 2>&1)
+    rc=$(echo "$out" | sed -n 's/^== .*: exit \([0-9]*\)$/\1/p' | sort -n | awk '$1==1{f=1} {l=$1} END{print (f?1:l)}')
     python3 - "$d" "$p" "$tier" "${rc:-2}" <<PY "$out"
 import json, sys, subprocess
 d, p, tier, rc, out = sys.argv[1], sys.argv[2], sys.argv[3], int(sys.argv[4]), sys.argv[5]
 sigs = [l.split('replay=')[1].split('/')[-1][:-5] for l in out.splitlines() if l.startswith('VIOLATION')]
 head = subprocess.run(['git', '-C', '/repo', 'rev-parse', '--short', 'HEAD'], capture_output=True, text=True).stdout.strip()
-json.dump({'seed': d.split('/')[-1], 'check': f'./check {p} {tier}', 'exit': rc, 'detected': rc == 1,
+json.dump({'seed': d.split('/')[-1], 'check': ' ; '.join(f'./check {q} {tier}' for q in (open(d + '/checks').read().split() if __import__('os').path.exists(d + '/checks') else [p])), 'exit': rc, 'detected': rc == 1,
            'violations': sigs, 'repo_head': head,
            'note': '' if rc in (0, 1) else out[-400:]}, open(d + '/detected.json', 'w'), indent=1)
 print(d, 'exit', rc, sigs[:2])
